@@ -35,6 +35,10 @@
    ((lit? x) (list 'quote (lit-value x)))
    ((seq? x) (cons 'seq (map-lr (lambda (y) (canon y binders)) (seq-ls x))))
    ((opcode? x) (list 'g (string->symbol (opcode-name x))))
+   ;; (scheme base) let-syntax / letrec-syntax = (let () (let-syntax/splicing ...)): a parameterless lambda applied
+   ;; to nothing adds an empty frame only; the generated forms never contain one themselves
+   ((and (pair? x) (null? (cdr x)) (lambda? (car x)) (null? (lambda-params (car x))))
+    (canon (lambda-body (car x)) binders))
    ((pair? x) (cons 'app (map-lr (lambda (y) (canon y binders)) x)))
    ((number? x) (list 'lit x))
    ((eq? x (if #f #f)) (list 'void))
